@@ -19,7 +19,7 @@ import l2
 import rest10gen as g
 
 MODULE = "c10mod"
-PAR = 6
+PAR = 4
 HEADER = ("From Coq Require Import List ZArith NArith String.\n"
           "From Shoot Require Import Model.RestHandle Corr.RestHandleCorr.\n"
           "Import ListNotations.\nLocal Open Scope string_scope.\n"
